@@ -27,6 +27,10 @@ def cursor_candidates(sa, za, preds, lows=(0, 1), point_preds=()):
     for l in za.int_locals:
         if b.local_name(l) and len(b.defs_of(l)) >= 2:
             cursors.append("_%d" % l)
+    # loop-carried cursors kept in a tuple or a small struct of integers
+    for l, fs in getattr(za, "tuple_fields", {}).items():
+        if b.local_name(l) and len(b.defs_of(l)) >= 2:
+            cursors.extend("_%d.%d" % (l, i) for i in fs)
     cands = set()
     for x in cursors:
         for P in preds:
